@@ -226,6 +226,7 @@ pub fn main(o: &Opts) -> i32 {
         progs.retain(|p| Some(p.name().as_str()) == v["case"]["program"].as_str());
     }
     rep.bounds = json!({"programs": progs.len(), "space": if o.tier == Tier::Quick { "P(3,1) (second closures for phase-1 length <= 1) + S(5)" } else { "P(4,1) + P(3,2) + S(9)" },
+        "histories": "every history of earlier same-thread calls (27 events incl. identity points, wrong lengths, too few generators, undecodable bytes, failing batch) of depth 1 (quick) / <= 2 (thorough) in front of 5 subjects",
         "deviated_proofs": "P(1,1) + small size family + extras: each point slot += B (R slots += B_blinding), each absorbed scalar += 1; the verifier's recorded transcript must carry the replaced element"});
     rep.curves = CURVES.iter().map(|s| s.to_string()).collect();
     rep.rule = "for every program an honest prover run and verifier run are recorded at the Merlin API; a monitor automaton (the protocol's fixed order with expected payloads computed from the program, the commitments and the decoded proof) consumes the main-transcript events of each role; then role synchrony, fork discipline and the follow-up challenge of the returned transcripts are checked".into();
@@ -264,6 +265,64 @@ pub fn main(o: &Opts) -> i32 {
                         let case = json!({"curve": curve, "program": p.name(), "check": e});
                         rep.count("violation", 1);
                         rep.violation(Violation { key: case.clone(), case, expected: e, observed: ob, note: "transcript discipline".into() });
+                    }
+                }
+            }
+        }
+    }
+    // non-initial states: the same monitor after every history of earlier calls on the thread
+    {
+        use crate::history;
+        let subjects: Vec<Program> = ["C M Ka", "C M Ka R[M Ka M]", "C Kd", "A A A R[A Kb]", "C C Xab R[Xca Kc]"].iter().map(|s| Program::parse(s).expect("subject")).collect();
+        let hdepth = if o.tier == Tier::Quick { 1 } else { 2 };
+        let mut hs: Vec<Vec<history::Prior>> = vec![];
+        for d in 1..=hdepth {
+            hs.extend(history::histories(d));
+        }
+        let mut tasks: Vec<(usize, &Program, &Vec<history::Prior>)> = vec![];
+        for (hi, h) in hs.iter().enumerate() {
+            for (si, sp) in subjects.iter().enumerate() {
+                tasks.push((hi + si, sp, h));
+            }
+        }
+        if let Some(path) = &o.replay {
+            let v: Value = serde_json::from_str(&std::fs::read_to_string(path).unwrap()).unwrap();
+            tasks.retain(|t| Some(t.1.name().as_str()) == v["case"]["program"].as_str() && Some(history::hist_name(t.2).as_str()) == v["case"]["history"].as_str());
+        }
+        for (ci, curve) in CURVES.iter().enumerate() {
+            let sub: Vec<&(usize, &Program, &Vec<history::Prior>)> = tasks.iter().filter(|t| t.2.len() == 1 || t.0 % 3 == ci).collect();
+            let res: Vec<Option<Result<Out, String>>> = with_curve!(*curve, G => {
+                let env = Env::<G>::new(64);
+                par_run(&sub, start, o.budget, |_, t| {
+                    let b = history::base::<G>(&env, o.seed).map_err(|e| format!("history base: {}", e))?;
+                    for ev in t.2.iter() {
+                        history::play::<G>(&env, &b, ev, o.seed).map_err(|m| format!("{} panicked: {}", ev.name(), m))?;
+                    }
+                    Ok(run_prog::<G>(&env, t.1, o.seed))
+                })
+            });
+            for (t, r) in sub.iter().zip(res) {
+                match r {
+                    None => skipped += 1,
+                    Some(Err(_)) => {
+                        rep.evaluations += 1;
+                        rep.count("precondition: history not playable (a panic in an earlier call is C08's business)", 1);
+                    }
+                    Some(Ok(out)) => {
+                        rep.evaluations += 1;
+                        rep.nontrivial += 1;
+                        states += out.steps + 1;
+                        transitions += out.events;
+                        validated += 2;
+                        rep.count("runs after a history of earlier calls", 1);
+                        if out.precondition_failed {
+                            rep.count("honest proof not accepted (C01's business): follow-up comparison skipped", 1);
+                        }
+                        for (e, ob) in out.bad {
+                            let case = json!({"curve": curve, "program": t.1.name(), "history": history::hist_name(t.2), "check": e});
+                            rep.count("violation", 1);
+                            rep.violation(Violation { key: case.clone(), case, expected: e, observed: ob, note: "transcript discipline after a history".into() });
+                        }
                     }
                 }
             }
